@@ -16,7 +16,7 @@ CHECKS = {
     ),
     "C02": dict(
         level="exploration",
-        text="Generated search (Hypothesis) over the scheme space of the statement, built from harness megacomplexes with closed-form columns; the penalty vector captured exactly as scipy receives it is compared at x0 and two further points with an independent reference objective written from the statement (per-index reduced, scaled, weighted least squares; stacked problems for linked groups; equal-area penalties), plus metamorphic independence of dataset groups, linked groups with clp_link_tolerance > 0 aligned by the C09 reference model, and a second optimizer on the same scheme object. Exploration: counts, feature histogram and samples are reported; nothing is proved. Inputs are also varied in representation: float32 / int64 data, Fortran / strided / read-only arrays, integer and descending / shuffled global axes.",
+        text="Generated search (Hypothesis) over the scheme space of the statement, built from harness megacomplexes with closed-form columns; the penalty vector captured exactly as scipy receives it is compared at x0 and two further points with an independent reference objective written from the statement (per-index reduced, scaled, weighted least squares; stacked problems for linked groups; equal-area penalties), plus metamorphic independence of dataset groups, linked groups with clp_link_tolerance > 0 aligned by the C09 reference model, and a second optimizer on the same scheme object. Exploration: counts, feature histogram and samples are reported; nothing is proved. Inputs are also varied in representation: float32 / int64 data, Fortran / strided / read-only arrays, integer and descending / shuffled global axes. A further sub-check keeps two unrelated schemes alive in one process and evaluates them alternately, each against its own reference.",
         note="Trusted: the reference objective (vlib/oracle/refobjective.py), numpy lstsq, exhaustive active-set NNLS. Cases whose semantics the statement leaves open are discarded and counted.",
         technique="property-based testing against a reference model + metamorphic relation (Hypothesis)",
         ref="DESIGN.md section 4 C02",
@@ -37,7 +37,7 @@ CHECKS = {
     ),
     "C10": dict(
         level="exploration",
-        text="Hypothesis rule-based state machine over the captured objective (evaluate new / earlier / raising points, fresh optimizer, change numba thread count) with a history invariant (value at x is a function of x only) and deep snapshots of the caller's parameters, model and data after every step; optimize() twice per method; dataset matrices recomputed under several numba thread counts, a fresh-process matrix over NUMBA_NUM_THREADS. Thread schedules are only sampled - the harness cannot own numba's scheduler (stated limit). Further rules: a neighbouring vector (one coordinate moved by 1e-6..1e-10 relative) against a fresh optimizer, kinetic schemes on time axes in other units (parameter magnitudes 1e-8..1e5), descending / shuffled / integer axes.",
+        text="Hypothesis rule-based state machine over the captured objective (evaluate new / earlier / raising points, fresh optimizer, change numba thread count) with a history invariant (value at x is a function of x only) and deep snapshots of the caller's parameters, model and data after every step; optimize() twice per method; dataset matrices recomputed under several numba thread counts, a fresh-process matrix over NUMBA_NUM_THREADS. Thread schedules are only sampled - the harness cannot own numba's scheduler (stated limit). Further rules: a neighbouring vector (one coordinate moved by 1e-6..1e-10 relative) against a fresh optimizer, kinetic schemes on time axes in other units (parameter magnitudes 1e-8..1e5), descending / shuffled / integer axes. The capture overwrites the returned vector and the given x after every evaluation, a rule lets the caller overwrite its own data after the optimizer was created, and an earlier Result must share nothing with the scheme nor change through a second or continued run.",
         note="Trusted: snapshot covers parameter dicts, model dict, data/weight/coordinate bytes. Bit-equality is counted; violation threshold 1e-12 relative.",
         technique="stateful property-based testing (Hypothesis RuleBasedStateMachine) + differential runs across processes/thread counts",
         ref="DESIGN.md section 4 C10",
@@ -65,14 +65,14 @@ CHECKS = {
     ),
     "C05": dict(
         level="exploration",
-        text="Hypothesis-generated rates, widths, times (log-spaced, uniform and clustered around the numerical branch switch), 1-3 Gaussians with the documented broadcast patterns, normalise on/off, per-index shifts and centre/width dispersion in both dispersion variables; each decay column obtained through the public calculate_matrix path is compared with a 60-digit mpmath closed form (itself self-checked against quadrature of the defining convolution), per index with the documented effective centre/width and with an index-independent twin model; result variables of a one-evaluation optimize() are checked too. Time axes also descending / shuffled, integer global axes, and every evaluation repeated after a refused one.",
+        text="Hypothesis-generated rates, widths, times (log-spaced, uniform and clustered around the numerical branch switch), 1-3 Gaussians with the documented broadcast patterns, normalise on/off, per-index shifts and centre/width dispersion in both dispersion variables; each decay column obtained through the public calculate_matrix path is compared with a 60-digit mpmath closed form (itself self-checked against quadrature of the defining convolution), per index with the documented effective centre/width and with an index-independent twin model; result variables of a one-evaluation optimize() are checked too. Time axes also descending / shuffled, integer global axes, and every evaluation repeated after a refused one. Time axes of 4097..12289 points are decided metamorphically (every row equals the row of the same time point on a short axis); a decoy global axis with the same length and end points is evaluated first.",
         note="Tolerance 1e-11 relative + 1e-13 of the column maximum, plus the first-order effect of the unavoidable rounding of the effective centre/width. Rate order / A-matrix taken from the megacomplex (C04's subject).",
         technique="property-based testing against a high-precision (mpmath) reference + metamorphic twin models",
         ref="DESIGN.md section 4 C05",
     ),
     "C04": dict(
         level="exploration",
-        text="Hypothesis-generated compartmental schemes (1-5 compartments, chains / trees / reversible chains / parallel / rings with real spectrum, 1-3 combined K-matrices with overridden entries, shuffled declaration order, any initial distribution with/without exclude_from_normalize, arbitrary time axes): the decay, decay-sequential and decay-parallel matrices are compared with exp(Kt)j evaluated by mpmath.expm at 50 digits from a K assembled by the oracle itself; differential sequential/parallel vs general, conservation for closed systems, and the reported rates / lifetimes / A-matrix / DAS / K-matrix of a one-evaluation optimize(). The time axis is also handed over descending / shuffled / strided / read-only, and every evaluation is repeated after a refused one (bit-identical).",
+        text="Hypothesis-generated compartmental schemes (1-5 compartments, chains / trees / reversible chains / parallel / rings with real spectrum, 1-3 combined K-matrices with overridden entries, shuffled declaration order, any initial distribution with/without exclude_from_normalize, arbitrary time axes): the decay, decay-sequential and decay-parallel matrices are compared with exp(Kt)j evaluated by mpmath.expm at 50 digits from a K assembled by the oracle itself; differential sequential/parallel vs general, conservation for closed systems, and the reported rates / lifetimes / A-matrix / DAS / K-matrix of a one-evaluation optimize(). The time axis is also handed over descending / shuffled / strided / read-only, and every evaluation is repeated after a refused one (bit-identical). Time axes of 1025..9000 points are decided metamorphically (every row equals the row of the same time point on a short axis); a decoy axis with the same length and end points is evaluated first.",
         note="Tolerance 100 eps cond(V) (1+|K|t)|j| per time point; cases with relative eigenvalue gap < 1e-2, complex eigenvalues, cond(V) > 1e6 or |K|t > 1e7 are discarded and counted.",
         technique="property-based testing against a high-precision (mpmath expm) reference + differential testing",
         ref="DESIGN.md section 4 C04",
